@@ -140,10 +140,6 @@ def Dec.obs (d : Dec) : Bool × Int := (d.1.isNone, d.2)
 def F_isenum_trunc (k : Kind) (decl : List Const) (probes : List Int) : Bool :=
   probes.any (fun p => !k.has p && decl.any (fun c => c.val = wrap k p))
 
-/-- an enum whose underlying type is `int` (first in the property's list of kinds): the helpers and
-    the codec methods cannot be instantiated ⇒ `F_int_constraint` -/
-def F_int_constraint (i : Input) : Bool := WF i && !i.kind.inConstraint
-
 /-! ## C14 -/
 namespace Bit
 variable {w : Nat}
